@@ -205,13 +205,13 @@ PROPS = {
                         'propagation (closures over the build context)', 'decoding of the stored value (assumed pure)'],
     },
     'C19': {
-        'units': ['mkdeps', 'depinfo', 'ninja_lex', 'buildfile'],
+        'units': ['mkdeps', 'depinfo', 'ninja_lex', 'buildfile', 'ninja_scope'],
         'safety': ['mkdeps', 'depinfo', 'ninja_lex'],
         'design_ref': 'DESIGN.md section 4, C19',
         'claim': 'every dereference in the hand-written parsers is inside the supplied buffer (no terminator assumed), '
                  'every loop terminates (decreases clauses), cursors stay in [begin,end]; Ninja lexer tokens tile the buffer, only blanks are skipped, '
                  'EndOfFile only at the true end, every other token consumes at least one byte; the build file loader (parseRootNode, parseClientMapping, parseToolsMapping, parseTargetsMapping, parseNodesMapping, parseCommandsMapping) over an arbitrary YAML document (every node reached is of arbitrary kind): a node is down-cast to ScalarNode / MappingNode / SequenceNode only after the matching kind test, a mapping iterator is dereferenced and advanced only before the end, a node text is read only of a scalar',
-        'not_decided': ['llvm::yaml itself (scanner / parser), the string handling of the loader', 'the Ninja parser and ManifestLoader (rule-variable recursion)', 'BinaryDecoder bounds on stored values'],
+        'not_decided': ['llvm::yaml itself (scanner / parser), the string handling of the loader', 'the Ninja parser and the rest of ManifestLoader (evalString; recursion between FILE-level bindings is not possible: they are evaluated when bound)', 'BinaryDecoder bounds on stored values'],
     },
     'C20': {
         'units': ['capi', 'capi_cb'],
